@@ -3,7 +3,9 @@
 # summary line each (exit status, counts, wall time, any VIOLATION / INCONCLUSIVE / KNOWN-FINDING lines).
 tier=${1:-quick}; shift || true
 ids=("$@"); if [ ${#ids[@]} -eq 0 ]; then ids=($(seq -f 'C%02g' 1 19)); fi
-cd /verif || exit 2
+root=$(cd "$(dirname "$0")/.." && pwd)
+cd "$root" || exit 2
+export VERIF_ROOT=$root
 for id in "${ids[@]}"; do
   s=$(date +%s)
   out=$(./check "$id" "$tier" 2>&1); rc=$?
